@@ -1,30 +1,30 @@
 (** C02 — setState / comparePopScore are atomic. Theorems about the closed, instantiated machine
     (Pop/SmDefs.v: as-coded model of CommandGroup / PopStateMachine / comparator / AltBlockTree::setState,
-    comparePopScore; concrete reference-count protecting state). Each is [exact] of a lemma of Pop/Sm*.v.
+    comparePopScore; concrete reference-count protecting state; every assert of the code is an explicit Abort).
+    Each theorem is [exact] of a lemma of Pop/Sm*.v.
 
     [quiet s] = tree well formed, tip applied, appliedBlockCount = length of root..tip. Every state reachable by ANY
     history of connectBlock / setState / comparePopScore (any scorer) is quiet, and in a quiet state EXACTLY the blocks
     root..tip are flagged applied (C02_reachable_quiet; counting argument over the as-coded counter).
 
-    PROVED, for all trees / payload assignments / failing positions (n,k) / scorers:
+    PROVED, for all trees / payload assignments / failing positions (n,k) / scorers / histories:
       * CommandGroup::execute and applyBlock are atomic (exact equality of P), unExecute / unapplyBlock exact inverses;
-      * C02_setState_atomic_partial: setState from a quiet state ends in a quiet state; true => target is tip (exactly
-        root..target applied); false => tip, counter, the applied flag of EVERY block unchanged, and P unchanged as a
-        multiset (C02_setState_failure_unchanged);
-      * C02_compare_atomic_partial: comparePopScore from a quiet state ends in a quiet state; result >= 0 => tip,
-        counter, applied flags of every block and P (multiset) unchanged; result < 0 => the candidate is the tip and
-        exactly root..candidate is applied;
-      * after either call P is exactly bootstrap + effects of the applied blocks (C02_compare_canonical, C01).
-      * C02_setState_marks / C02_compare_marks ([md (branch s t) s s']): from every reachable state the call changes
-        nothing in the tree but validity marks, and those only on the target / candidate branch: levels are raised only
-        on ancestors-or-self of the target, FAILED_POP is set only there, FAILED_CHILD only on proper descendants of a
-        block of the branch that got FAILED_POP; nothing is cleared or lowered, FAILED_BLOCK is untouched.
-    GAP (why the two main theorems still carry _partial): no assert of the modelled code (Abort outcome) is reachable
-      from reachable states - proved for setState to a fully valid target (C20_reactivation), not yet for a failing
-      target and for comparePopScore. Covered by the direct oracle on the implementation (an assert aborts the harness
-      and is reported with the history) and by the step-by-step correspondence with the model. *)
+      * setState, COMPLETE: C02_setState_never_aborts (for every known target - valid, failing at any position, already
+        invalid, ahead, behind, on a fork - the call returns true or false, no assert is reachable);
+        C02_setState_atomic (true => target is tip, exactly root..target applied; false => tip, counter and the
+        applied flag of EVERY block unchanged); C02_setState_failure_unchanged (and P unchanged as a multiset);
+        C02_setState_marks (nothing but validity marks changes, and only on the target branch: levels raised only on
+        ancestors-or-self of the target, FAILED_POP only there, FAILED_CHILD only on proper descendants of a block of
+        the branch that got FAILED_POP; nothing cleared or lowered);
+      * comparePopScore: C02_compare_atomic_partial (result >= 0 => tip, counter, applied flags of every block and P
+        unchanged; result < 0 => the candidate is the tip and exactly root..candidate is applied), C02_compare_marks
+        (marks only on the candidate branch), C02_compare_canonical (P = bootstrap + effects of the applied blocks).
+    GAP (why the compare theorem carries _partial): that comparePopScore itself reaches no assert (Abort outcome) from
+      reachable states is not proved (it needs the two-applied-chains analogue of the single-chain lemmas of
+      Pop/SmAbort.v). Covered by the direct oracle on the implementation (an assert aborts the harness and is reported
+      with the history) and by the step-by-step correspondence with the model. *)
 From Coq Require Import List ZArith NArith Bool Permutation.
-From VB Require Import Pop.SmDefs Pop.SmProofs Pop.SmWf Pop.SmCmp Pop.SmAll Pop.SmMarks.
+From VB Require Import Pop.SmDefs Pop.SmProofs Pop.SmWf Pop.SmCmp Pop.SmAll Pop.SmMarks Pop.SmAbort.
 Local Open Scope Z_scope.
 
 Theorem C02_group_exec_atomic :
@@ -66,7 +66,7 @@ Theorem C02_setState_outcome :
 Proof. exact setState_outcome. Qed.
 Print Assumptions C02_setState_outcome.
 
-Theorem C02_setState_atomic_partial :
+Theorem C02_setState_atomic :
   forall s to s' ok, quiet s -> c_setState s to = Ok (s', ok) ->
     quiet s' /\
     (forall j, is_act (cores s') j <-> In j (chain s')) /\
@@ -74,7 +74,7 @@ Theorem C02_setState_atomic_partial :
     (ok = false -> tip _ _ s' = tip _ _ s /\ napp _ _ s' = napp _ _ s /\
                    forall j, is_act (cores s') j <-> is_act (cores s) j).
 Proof. exact setState_applied_exactly. Qed.
-Print Assumptions C02_setState_atomic_partial.
+Print Assumptions C02_setState_atomic.
 
 Theorem C02_setState_failure_unchanged :
   forall base s to s', quiet s -> canon base s -> c_setState s to = Ok (s', false) ->
@@ -107,3 +107,9 @@ Theorem C02_compare_marks :
   forall base sc cr s c s' r, reachable base s -> c_compare sc cr s (Some c) = Ok (s', r) -> md (branch s c) s s'.
 Proof. exact compare_marks. Qed.
 Print Assumptions C02_compare_marks.
+
+Theorem C02_setState_never_aborts :
+  forall base s to bto,
+    reachable base s -> find ccmd (blocks _ _ s) to = Some bto -> exists s' ok, c_setState s to = Ok (s', ok).
+Proof. exact setState_total. Qed.
+Print Assumptions C02_setState_never_aborts.
